@@ -353,6 +353,22 @@ def or_fan_case(rnd, cid):
                 disableOr=False, redundantOr=rnd.random() < .5, inverse=rnd.random() < .2, allCompliant=rnd.random() < .5)
 
 
+def tied_focus_case(rnd, cid):
+    """a wildcard selector over a multi-valued property ({FOCUS p _} answers a node once per value) whose focus nodes each bring a
+    constraint of their own: all those constraints are tied in frequency, so their order in the text follows the order of the nodes"""
+    n = rnd.randint(4, 7)
+    nodes = [M.iri(EX + "f%d" % i) for i in range(n)]
+    T = []
+    for i, x in enumerate(nodes):
+        for o in rnd.sample([y for y in nodes if y != x], rnd.randint(2, 3)):
+            T.append((x, EX + "knows", o))
+        T.append((x, EX + "own%d" % i, M.lit("v")))
+    rnd.shuffle(T)
+    items = [{"label": EX + "shapes/L0", "labelSpelling": "bracket", "spelling": "bracket", "kind": "pattern", "ps": ["FOCUS", ""],
+              "pp": EX + "knows", "po": ["ANY", ""], "syntax": "focus"}]
+    return case(cid, T, mode="shapemap", items=items, nsDict=NSDICT, inverse=rnd.random() < .3, allCompliant=rnd.random() < .5)
+
+
 def chain_case(rnd, cid):
     """shape-map shapes L0 -> L1 -> ... -> Ln linked by one property; the last shape has no feature shared by all its nodes, the
     middle ones only the link: with a threshold the removal of the last shape cascades backwards (remove_empty_shapes)"""
